@@ -391,8 +391,60 @@ class QGen(object):
         return [k, self.tree(depth - 1), self.tree(depth - 1 - (r.random() < 0.3))]
 
 
+def plant_phrases(rng, docs, keys, vocab):
+    """Phrase-focused documents and queries on field "t" (always TEXT with positions): a tiny vocabulary
+    (2-4 words, so the words of a phrase repeat inside a document), phrases of 3-5 words, slop 1-4.
+    Two kinds of documents: (a) random sequences over the tiny vocabulary with position gaps; (b) the phrase
+    planted word by word, each non-last word possibly doubled or followed by a filler, so that often only
+    ONE chain of occurrences satisfies the slop - through a later occurrence of a repeated word, with an
+    earlier occurrence that is within the slop of its predecessor but too far from its successor.
+    Returns the phrase queries (the Lean chain predicate is the oracle for all of them)."""
+    small = rng.sample(vocab, min(len(vocab), rng.choice([2, 3, 3, 4])))
+    filler = rng.choice([w for w in vocab if w not in small] or small)
+    phrases = []
+    for _ in range(rng.choice([1, 2, 2, 3])):
+        n = rng.choice([3, 3, 4, 5])
+        phrases.append(([rng.choice(small) for _ in range(n)], rng.choice([1, 2, 2, 3, 4])))
+    for k in keys:
+        r = rng.random()
+        if r < 0.3:
+            continue   # keep the ordinary document
+        toks, pos = [], 0
+        if r < 0.6:
+            for i in range(rng.choice([3, 4, 5, 6, 8, 10])):
+                pos += 0 if not toks else rng.choice([1, 1, 1, 2, 2, 3])
+                toks.append([rng.choice(small + [filler]) if rng.random() < 0.9 else rng.choice(vocab), pos, 1.0])
+        else:
+            ws, slop = rng.choice(phrases)
+            lead = rng.choice([0, 0, 1, 2])
+            for i in range(lead):
+                toks.append([rng.choice(small + [filler]), pos, 1.0])
+                pos += 1
+            for j, w in enumerate(ws):
+                reps = 1 if j == len(ws) - 1 else rng.choice([1, 1, 2, 2, 3])
+                for _ in range(reps):
+                    toks.append([w, pos, 1.0])
+                    pos += rng.choice([1, 1, 1, 2])
+                if j < len(ws) - 1:
+                    for _ in range(rng.choice([0, 0, 1, 1, 2, slop])):
+                        toks.append([filler if rng.random() < 0.7 else rng.choice(small), pos, 1.0])
+                        pos += 1
+            if rng.random() < 0.3:
+                toks.append([rng.choice(small), pos, 1.0])
+        docs[k]["t"] = toks
+    qs = []
+    for ws, slop in phrases:
+        b = rng.choice(BOOSTS) if rng.random() < 0.3 else 1.0
+        qs.append(["phrase", "t", ws, slop, b])
+        qs.append(["phrase", "t", ws, rng.choice([1, 2, 3, 4, 5]), 1.0])
+        if len(ws) > 3:
+            st = rng.randint(0, len(ws) - 3)
+            qs.append(["phrase", "t", ws[st:st + 3], rng.choice([2, 3, 4]), 1.0])
+    return qs
+
+
 def gen_case(rng, ndocs=None, nq=8, maxdepth=5, longdocs=False, nseg=None, nodeletes=False, vocab_n=None,
-             sparse_or=0):
+             sparse_or=0, plant=0.0):
     spec = gen_schema(rng)
     # small vocabularies give dense posting lists, large ones sparse lists (cursors that skip far)
     vocab = rng.sample(WORDS, vocab_n or rng.choice([4, 6, 8, 10, 12, 12, 16, 24, 36]))
@@ -410,13 +462,39 @@ def gen_case(rng, ndocs=None, nq=8, maxdepth=5, longdocs=False, nseg=None, nodel
     hist = gen_history(rng, keys, nseg=nseg)
     if nodeletes:
         hist = [dict(c, **{"del": []}) for c in hist if c["add"]]
+    planted = []
+    if plant and rng.random() < plant:
+        planted = plant_phrases(rng, docs, keys, vocab)
     qg = QGen(rng, spec, vocab, docs, maxdepth=maxdepth)
     queries = [qg.tree() for _ in range(nq)]
+    if planted:
+        # the planted phrases bare, and as clauses of compounds (the parent moves the span matcher with skip_to)
+        queries = queries[:max(2, nq - 4)] + planted
+        ph = rng.choice(planted)
+        k = rng.choice(["and", "or", "andnot", "andmaybe", "require", "not"])
+        if k in ("and", "or"):
+            queries.append([k, [ph, qg.tree(1)], qg.boost()])
+        elif k == "not":
+            queries.append(["not", ph])
+        else:
+            queries.append([k, ph, qg.tree(1)] if rng.random() < 0.5 else [k, qg.tree(1), ph])
     for _ in range(sparse_or):
         # three or more sparse clauses: the array union (scored, needs_current=False) has to cross
         # empty stretches and, beyond 2048 documents, part boundaries
         n = rng.choice([3, 3, 4, 5])
         queries.append(["or", [qg.sparse_leaf() for _ in range(n)], qg.boost()])
+        # ... the same over plain terms (boost 1: sub-matchers of one class, the array union the cursor model
+        # has), stepped by the cursor stream with skip_to() calls that land in, at the end of and beyond the
+        # buffered part
+        unit = ["or", [qg.sparse_leaf()[:3] + [1.0] for _ in range(rng.choice([3, 4, 6]))], qg.boost()]
+        queries.append(unit)
+        # ... and as a clause that a parent moves with skip_to(): intersection / difference / optional side
+        k = rng.choice(["and", "andnot", "require", "andmaybe", "and"])
+        other = qg.sparse_leaf() if rng.random() < 0.6 else qg.tree(1)
+        if k == "and":
+            queries.append(["and", [unit, other] if rng.random() < 0.5 else [other, unit], qg.boost()])
+        else:
+            queries.append([k, other, unit] if rng.random() < 0.5 else [k, unit, other])
     return {"schema": spec, "docs": docs, "history": hist, "queries": queries}
 
 
@@ -613,13 +691,34 @@ def field_lexicon(case, f):
     return sorted(out)
 
 
-def q_to_lean(enc, case, q):
-    """query spec -> Lean S-expression; None when the query is outside the modelled domain"""
+def compiled_to_lean(cq):
+    """what NumericRange._compile_query returned (NullQuery, Term, TermRange, Or, ConstantScoreQuery over term
+    bytes) as a term-level Lean query"""
+    from whoosh import query as Q
+    if cq is Q.NullQuery or isinstance(cq, type(Q.NullQuery)):
+        return "null"
+    if isinstance(cq, Q.ConstantScoreQuery):
+        return "(const %s %s)" % (compiled_to_lean(cq.child), rat(cq.score))
+    if isinstance(cq, Q.Or):
+        return "(or (%s) %s)" % (" ".join(compiled_to_lean(x) for x in cq.subqueries), rat(cq.boost))
+    if isinstance(cq, Q.TermRange):
+        return "(multi %s (range %s %s %d %d) %s %d)" % (
+            cq.fieldname, "none" if cq.start is None else hexs(cq.start), "none" if cq.end is None else hexs(cq.end),
+            cq.startexcl, cq.endexcl, rat(cq.boost), 1 if cq.constantscore else 0)
+    if isinstance(cq, Q.Term):
+        return "(term %s %s %s)" % (cq.fieldname, hexs(cq.text), rat(cq.boost))
+    raise Unmodelled()
+
+
+def q_to_lean(enc, case, q, numeric=None):
+    """query spec -> Lean S-expression; None when the query is outside the modelled domain.
+    numeric = an index reader: NumericRange/DateRange nodes are translated to what their _compile_query
+    returns on that reader (Or of Term/TermRange over the tier terms) instead of the value-level numrange"""
     k = q[0]
     spec = enc.spec
 
     def sub(x):
-        r = q_to_lean(enc, case, x)
+        r = q_to_lean(enc, case, x, numeric)
         if r is None:
             raise Unmodelled()
         return r
@@ -662,6 +761,13 @@ def q_to_lean(enc, case, q):
         if f not in spec:
             return "null"
         return "(phrase %s (%s) %d %s)" % (f, " ".join(hexs(w.encode("utf8")) for w in ws), slop, rat(b))
+    if k in ("nrange", "drange") and numeric is not None:
+        try:
+            return compiled_to_lean(q_to_whoosh(case, q)._compile_query(numeric))
+        except Unmodelled:
+            raise
+        except Exception:  # noqa   (bounds the field rejects ...: the value-level stream covers them)
+            raise Unmodelled()
     if k in ("nrange", "drange"):
         _, f, lo, hi, le, he, b, cs = q
         return "(numrange %s %s %s %d %d %s)" % (f, "none" if lo is None else rat(lo),
@@ -882,6 +988,46 @@ def step_matcher(m):
     return out
 
 
+def gen_program(rng):
+    """a cyclic stepping program for the cursor stream: "n" = next(), "r" = m = m.replace(),
+    ("s", d) = skip_to(id() + d); at least one next() per cycle, so every cycle makes progress"""
+    ops = []
+    for _ in range(rng.randint(1, 6)):
+        r = rng.random()
+        if r < 0.45:
+            ops.append("n")
+        elif r < 0.9:
+            ops.append(("s", rng.choice([0, 1, 1, 2, 2, 3, 5, 8, 40, 2047, 2048, 2049])))
+        else:
+            ops.append("r")
+    ops.insert(rng.randrange(len(ops) + 1), "n")
+    return ops
+
+
+def program_sexp(prog):
+    return "(" + " ".join(o if isinstance(o, str) else "(s %d)" % o[1] for o in prog) + ")"
+
+
+def step_program(m, prog):
+    """what id()/score() read before each call of the program (applied cyclically while active)"""
+    out = []
+    j = 0
+    while m.is_active():
+        x = m.id()
+        out.append((x, m.score()))
+        op = prog[j % len(prog)]
+        if op == "n":
+            m.next()
+        elif op == "r":
+            m = m.replace()
+        else:
+            m.skip_to(x + op[1])
+        j += 1
+        if j > 400000:
+            raise RuntimeError("matcher does not terminate")
+    return out
+
+
 # ------------------------------------------------------------------------------------------------
 # query reduction (shrinking)
 
@@ -1014,6 +1160,26 @@ class CaseRun(object):
         if out == "bad-op":
             raise RuntimeError("driver rejected compile request (seed %s)" % self.seed)
         return [[[(int(h[0]), parse_rat(h[1])) for h in seg] for seg in perq] for perq in parse_sexp(out)[0]]
+
+    def ask_cursor(self, leanqs, nc, scored, prog):
+        """per query, per segment: list of (id, score) | "notimpl" | ("err", kind)"""
+        from vcheck import parse_sexp
+        out = self.ask1("c01 cursor %s %d %d %s (%s) %s" % (self.modestr, nc, scored, self.idx, " ".join(leanqs),
+                                                            program_sexp(prog)))
+        if out == "bad-op":
+            raise RuntimeError("driver rejected cursor request (seed %s)" % self.seed)
+        res = []
+        for perq in parse_sexp(out)[0]:
+            row = []
+            for seg in perq:
+                if seg == "notimpl":
+                    row.append("notimpl")
+                elif seg and seg[0] == "err":
+                    row.append(("err", seg[1]))
+                else:
+                    row.append([(int(h[0]), parse_rat(h[1])) for h in seg])
+            res.append(row)
+        return res
 
     def lean(self, q):
         try:
@@ -1237,7 +1403,8 @@ class CaseRun(object):
             self.case = gen_case(rng, ndocs=self.opts.get("ndocs"), nq=self.opts.get("nq", 8),
                                  maxdepth=self.opts.get("maxdepth", 5), longdocs=self.opts.get("longdocs", False),
                                  nseg=self.opts.get("nseg"), nodeletes=self.opts.get("nodeletes", False),
-                                 vocab_n=self.opts.get("vocab_n"), sparse_or=self.opts.get("sparse_or", 0))
+                                 vocab_n=self.opts.get("vocab_n"), sparse_or=self.opts.get("sparse_or", 0),
+                                 plant=self.opts.get("plant", 0.0))
         case = self.case
         if self.opts.get("queries") is not None:
             case = dict(case, queries=self.opts["queries"])
@@ -1363,6 +1530,8 @@ class CaseRun(object):
         scores = self.opts.get("scores", False)
         for nc in self.opts.get("corr_nc", (0, 1)):
             ctx = s.context(needs_current=bool(nc))
+            if self.opts.get("cursor", True):
+                self.cursor_stream(s, modelled, nc, ctx, res, stat)
             model = self.ask_compile([lq for _, lq in modelled], nc, 1)
             for (q, lq), perseg in zip(modelled, model):
                 wq = q_to_whoosh(self.case, q)
@@ -1397,6 +1566,92 @@ class CaseRun(object):
                                                 "kind": fail["kind"], "corr": True,
                                                 "exp": [[d, str(sc)] for d, sc in mseg][:40], "obs": fail["obs"],
                                                 "layout": [[len(k), d] for k, d in self.layout]})
+
+
+def _cursor_stream(self, s, modelled, nc, ctx, res, stat):
+    """model <-> implementation, cursor level: the tree `WM.Compile.build` constructs (the matcher
+    family's cursor model: ListMatcher leaves, binary matchers, wrappers, inverse, scored array union)
+    is stepped by the driver with a generated program of next / skip_to / replace calls, the real
+    `q.matcher(segment searcher, context)` with the same program; what id()/score() read before each
+    call must agree.  Queries outside the model's vocabulary answer `notimpl` (counted)."""
+    import random
+    from fractions import Fraction
+    scores = self.opts.get("scores", False)
+    progs = [gen_program(random.Random("%s:prog:%d" % (self.seed, nc)))]
+    try:   # the part size of the running code (a tuning constant: read, not assumed)
+        import inspect
+        from whoosh.matching.combo import ArrayUnionMatcher
+        psz = int(inspect.signature(ArrayUnionMatcher.__init__).parameters["partsize"].default)
+    except Exception:  # noqa
+        psz = 2048
+    if any(len(ks) > psz for ks, _ in self.layout):
+        # segments beyond one part of the array union: a second program whose skip_to() calls cross part
+        # boundaries (to the last cell of a part, its end, beyond it) whatever the generated one does
+        progs.append(["n", ("s", psz), "n", ("s", psz // 3), ("s", psz - 1), ("s", psz + 1)][nc:] + ["n"])
+    # numeric / date ranges: the cursor model runs the query _compile_query returns (C01.numeric_range_compiled)
+    reader = s.reader()
+    withnum = []
+    for q, lq in modelled:
+        if set(node_kinds(q)) & {"nrange", "drange"}:
+            try:
+                lq = q_to_lean(self.enc, self.case, q, numeric=reader)
+                stat("cursor:numeric-range-compiled")
+            except Unmodelled:
+                stat("cursor:numeric-range-not-compiled")
+        withnum.append((q, lq))
+    modelled = withnum
+    for prog in progs:
+        model = self.ask_cursor([lq for _, lq in modelled], nc, 1, prog)
+        for o in prog:
+            stat("cursor:op:" + (o if isinstance(o, str) else "skip_to"))
+        for (q, lq), perseg in zip(modelled, model):
+            wq = q_to_whoosh(self.case, q)
+            for si, ((ss, _off), mseg) in enumerate(zip(s.leaf_searchers(), perseg)):
+                if mseg == "notimpl":
+                    kinds = set(node_kinds(q))
+                    why = "phrase" if "phrase" in kinds else "numeric-range" if kinds & {"nrange", "drange"} else \
+                        "unscored-or-mixed-array-union"
+                    stat("cursor:notimpl:" + why)
+                    continue
+                res["ncases"] += 1
+                stat("cursor:nc=%d" % nc)
+                for kd in set(node_kinds(q)) & {"prefix", "wild", "regex", "trange", "fuzzy", "every"}:
+                    stat("cursor:node:" + kd)
+                fail = None
+                if isinstance(mseg, tuple):
+                    fail = {"kind": "model-raises", "obs": "model: " + str(mseg[1])}
+                    mseg = []
+                else:
+                    try:
+                        real = with_watchdog(lambda: step_program(wq.matcher(ss, ctx), prog), 30.0)
+                    except Exception as e:  # noqa
+                        real = None
+                        fail = {"kind": "exc", "obs": exc_sig(e)}
+                    if real is not None:
+                        if [d for d, _ in real] != [d for d, _ in mseg]:
+                            fail = {"kind": "docs", "obs": [d for d, _ in real][:60]}
+                        elif scores:
+                            bad = {}
+                            for (d, sc), (_, e) in zip(real, mseg):
+                                o = Fraction(*float(sc).as_integer_ratio())
+                                ok = (o == e) if self.mode == "freq" else \
+                                    abs(o - e) <= Fraction(1, 10**9) * max(1, abs(e))
+                                if not ok:
+                                    bad[d] = [str(o), str(e)]
+                            if bad:
+                                fail = {"kind": "score", "obs": bad}
+                if fail:
+                    if fail["kind"] == "exc":
+                        sig = "matcher-program:raises:%s" % fail["obs"]
+                    else:
+                        sig = "matcher:wrong-%s:%s" % (fail["kind"], q[0])
+                    res["failures"].append({"sig": sig, "q": q, "corr": True,
+                                            "path": "matcher:cursor:nc=%d:seg=%d:prog=%s" % (nc, si, program_sexp(prog)),
+                                            "kind": fail["kind"], "exp": [[d, str(sc)] for d, sc in mseg][:40],
+                                            "obs": fail["obs"], "layout": [[len(k), d] for k, d in self.layout]})
+
+
+CaseRun.cursor_stream = _cursor_stream
 
 
 def work(arg):
